@@ -188,7 +188,18 @@ def coq_eval(name, text, timeout=900):
     path = os.path.join(d, name + ".v")
     with open(path, "w") as f:
         f.write(text)
-    rc, out, dt = sh(f"ulimit -s unlimited 2>/dev/null; exec coqc -Q {COQ} XSM {path}", timeout=timeout, cwd=d)
+    rc, out, dt = sh(f"ulimit -s unlimited 2>/dev/null; exec coqc -noglob -Q {COQ} XSM {path}", timeout=timeout, cwd=d)
+    # only the printed answer matters: the compiled case file (often many MB) is thrown away at once
+    for ext in (".vo", ".vok", ".vos", ".glob"):
+        try:
+            os.remove(os.path.join(d, name + ext))
+        except OSError:
+            pass
+    for junk in ([os.path.join(d, "." + name + ".aux")] + ([path] if rc == 0 and name != "replay" else [])):
+        try:
+            os.remove(junk)          # the generated text itself is kept only when Coq rejected it
+        except OSError:
+            pass
     return rc, out, dt
 
 
